@@ -84,7 +84,12 @@ CallOk(e) ==
   LET kind == e.ret[1]
       hard == \E k \in 1..Len(e.inner) : e.inner[k][2] \in {"eW", "eO"}
       dataWrites == {k \in 1..Len(e.inner) : IsDataWrite(e.inner[k], e.data)}
-  IN IF kind = "ok" THEN
+  IN IF kind = "ok" /\ e.data = <<>> THEN
+        \* nothing to show: whatever is emitted consists of codes only and leaves the default state; nothing at all without colours
+        LET all == AccBytes(e.inner)
+            c   == CodesOnly(all, Default)
+        IN e.ret[2] = 0 /\ ~hard /\ c[1] /\ c[2] = Default /\ Kept(all) = <<>> /\ ((e.fg = 16 /\ e.bg = 16) => all = <<>>)
+     ELSE IF kind = "ok" THEN
         LET n    == e.ret[2]
             pre  == AccWhere(e.inner, e.data, "pre")
             post == AccWhere(e.inner, e.data, "post")
